@@ -27,6 +27,33 @@ pub struct UpdCase {
     pub crlf: bool,
     /// per test: 0 pass, 1 changed output, 2 changed exit code (non-zero), 3 changed output without final newline, 4 exit code 0 where another was expected
     pub outcomes: Vec<u8>,
+    /// end-to-end replay through `scrut update --replace --assume-yes` with real commands: index into `cli_documents()`
+    #[serde(default)]
+    pub cli_doc: Option<usize>,
+}
+
+/// documents with real commands for the end-to-end replays: (text, number of tests)
+pub fn cli_documents() -> Vec<String> {
+    let blocks = [
+        "```scrut\n$ echo out\nout\n```\n",                              // passes
+        "```scrut\n$ echo changed\nstale\n```\n",                        // output changed
+        "```scrut {timeout: 30s}\n# a comment\n$ echo a; (exit 2)\na\n```\n", // exit code changed
+        "````scrut\n$ printf 'x\\n```\\nno newline'\nold\n````\n",          // fence in output, unterminated last line
+        "```scrut\n# only a comment\n```\n",                               // no test
+        "```scrut\n$ echo a; (exit 3)\na\n[3]\n```\n",                     // passes with exit code
+    ];
+    let prose = ["# Title\n\nSome ``inline`` prose\n\n", "---\ndefaults:\n  keep_crlf: false\n---\n\n", "```bash\n$ not a test\n```\n\n", "trailing text without newline"];
+    let mut docs = vec![];
+    for (i, b) in blocks.iter().enumerate() {
+        docs.push(format!("{}{}", prose[0], b));
+        docs.push(format!("{}{}{}{}", prose[1], prose[0], b, prose[2]));
+        for (j, c) in blocks.iter().enumerate() {
+            if i != j {
+                docs.push(format!("{}{}\n{}{}\n{}", prose[0], b, prose[2], c, prose[3]));
+            }
+        }
+    }
+    docs
 }
 
 thread_local! {
@@ -148,14 +175,18 @@ impl Engine for VcUpdate {
                     // number of tests is only known after parsing: enumerate outcome vectors up to 3 tests lazily in check
                     // here: one case per outcome vector index 0..4^3, filtered in check by the actual test count
                     let segs = segs.clone();
-                    (0..125u8).map(move |code| UpdCase { segs: segs.clone(), keep, crlf, outcomes: vec![code % 5, (code / 5) % 5, code / 25] })
+                    (0..125u8).map(move |code| UpdCase { segs: segs.clone(), keep, crlf, outcomes: vec![code % 5, (code / 5) % 5, code / 25], cli_doc: None })
                 })
             })
         });
-        Box::new(it)
+        let cli = (0..cli_documents().len()).map(|i| UpdCase { segs: vec![], keep: 0, crlf: false, outcomes: vec![0, 0, 0], cli_doc: Some(i) });
+        Box::new(it.chain(cli))
     }
     fn relevant(&self, _property: &str, case: &UpdCase) -> bool {
         // CRLF variants only for the all-pass and first-fails vectors (line endings are orthogonal to outcomes)
+        if case.cli_doc.is_some() {
+            return true;
+        }
         if case.crlf && !case.outcomes.iter().skip(1).all(|o| *o == 0) {
             return false;
         }
@@ -178,12 +209,15 @@ impl Engine for VcUpdate {
         vec![
             "documents the Markdown parser rejects and documents with constructs the reference tokenizer calls unspecified are skipped (the CLI never reaches the generator for the former)".into(),
             "line terminators are normalised to LF by update (documented in newline.rs); lines are compared by content".into(),
-            "outputs are synthesised so that validate yields the intended outcome; the real validate decides the result that is handed to the generator".into(),
+            "outputs are synthesised so that validate yields the intended outcome; the real validate decides the result that is handed to the generator; plus end-to-end replays with real commands through `scrut update --replace --assume-yes` (twice) and `scrut test`".into(),
         ]
     }
 
     fn check(&self, case: &UpdCase) -> CaseResult {
         let mut res = CaseResult::default();
+        if let Some(i) = case.cli_doc {
+            return check_cli(case, &cli_documents()[i]);
+        }
         let doc = doc_text(&case.segs, case.keep, case.crlf);
         let reference = tokenize(&doc);
         if reference.unspecified.is_some() || matches!(reference.unterminated, Some(Unterminated::FrontMatter { .. })) {
@@ -293,4 +327,51 @@ impl Engine for VcUpdate {
     fn size(&self, case: &UpdCase) -> usize {
         case.keep * 100 + case.outcomes.iter().map(|o| *o as usize).sum::<usize>() + case.crlf as usize
     }
+}
+
+/// end-to-end: `scrut update --replace --assume-yes` twice, then `scrut test`
+fn check_cli(case: &UpdCase, doc: &str) -> CaseResult {
+    use crate::cli::*;
+    let mut res = CaseResult::default();
+    res.nontrivial.push(("C10", hash64(case)));
+    let sb = Sandbox::new();
+    let path = sb.write("doc.md", doc.as_bytes());
+    let fail = |res: &mut CaseResult, clause: &str, exp: String, obs: String| {
+        if res.findings.is_empty() {
+            res.findings.push(Finding::new("C10", clause, exp, format!("{obs}; document = {doc:?}")));
+        }
+    };
+    let reference = tokenize(doc);
+    let run1 = run_scrut(&sb, &["update", "--no-color", "--replace", "--assume-yes", "doc.md"], &[], std::time::Duration::from_secs(60));
+    if run1.status != Some(0) {
+        fail(&mut res, "update-returns", "exit status 0".into(), format!("{:?}: {}", run1.status, run1.stderr_str().lines().last().unwrap_or("")));
+        return res;
+    }
+    let u1 = std::fs::read_to_string(&path).unwrap_or_default();
+    let ref_u1 = tokenize(&u1);
+    let (a, b) = (outside_lines(doc, &reference), outside_lines(&u1, &ref_u1));
+    if a != b {
+        fail(&mut res, "lines-outside-blocks-preserved", format!("{a:?}"), format!("{b:?} in {u1:?}"));
+    }
+    let blocks = |d: &RefDoc| d.blocks.iter().map(|b| (b.0.clone(), b.1.clone().map(|c| c.trim().to_string()))).collect::<Vec<_>>();
+    if blocks(&reference) != blocks(&ref_u1) {
+        fail(&mut res, "blocks-language-and-config-kept", format!("{:?}", blocks(&reference)), format!("{:?} in {u1:?}", blocks(&ref_u1)));
+    }
+    for bi in 0..reference.blocks.len().min(ref_u1.blocks.len()) {
+        if block_lines(doc, &reference, bi, false) != block_lines(&u1, &ref_u1, bi, false) {
+            fail(&mut res, "comment-lines-kept", format!("{:?}", block_lines(doc, &reference, bi, false)), format!("{:?}", block_lines(&u1, &ref_u1, bi, false)));
+        }
+    }
+    let run2 = run_scrut(&sb, &["update", "--no-color", "--replace", "--assume-yes", "doc.md"], &[], std::time::Duration::from_secs(60));
+    let u2 = std::fs::read_to_string(&path).unwrap_or_default();
+    if run2.status != Some(0) || u2 != u1 {
+        fail(&mut res, "idempotent", format!("second update changes nothing: {u1:?}"), format!("status {:?}, {u2:?}", run2.status));
+    }
+    let run3 = run_scrut(&sb, &["test", "--no-color", "-r", "json", "doc.md"], &[], std::time::Duration::from_secs(60));
+    let kinds = run3.json_kinds();
+    if run3.status != Some(0) || kinds.as_ref().map(|k| k.iter().any(|x| x != "success")).unwrap_or(true) {
+        fail(&mut res, "updated-document-passes", format!("`scrut test` passes on {u1:?}"), format!("status {:?} {kinds:?}", run3.status));
+    }
+    res.outcome.push(("C10", hash64(&("cli", u1 == doc, run3.status))));
+    res
 }
